@@ -149,6 +149,9 @@ func (l *InterceptingListener) getTlsConfigForClient(clientInfo *ClientInfo) fun
 				if err := proto.Unmarshal(reqBytes, serverCertsReq); err != nil {
 					return nil, fmt.Errorf("(%s) error unmarshaling common name value: %w", op, err)
 				}
+				// This request came from the remote side; only the fetch path
+				// above, which sets this itself, may skip verification
+				serverCertsReq.SkipVerification = false
 				protoToReturn = p
 
 			default:
